@@ -119,7 +119,7 @@ func New(parent string, opt Options) (*World, error) {
 
 func (w *World) Close() {
 	if w.TS != nil && w.TS.DB != nil {
-		// the DB handle is unexported; dropping the reference is all we can do
+		w.TS.DB.VerifClose()
 	}
 	os.RemoveAll(w.Dir)
 }
@@ -162,6 +162,44 @@ func (w *World) RequestWith(body []byte, watchdog time.Duration) Result {
 	case <-time.After(watchdog):
 		return Result{Timeout: true}
 	}
+}
+
+// Burst sends the same body n times at the same moment (everything is prepared before a common start signal) and
+// returns the n results; a request that does not return within the watchdog is reported as Timeout.
+func (w *World) Burst(body []byte, n int, watchdog time.Duration) []Result {
+	res := make([]Result, n)
+	done := make([]chan struct{}, n)
+	start := make(chan struct{})
+	for g := 0; g < n; g++ {
+		done[g] = make(chan struct{})
+		rec := httptest.NewRecorder()
+		ctx, _ := gin.CreateTestContext(rec)
+		ctx.Request = httptest.NewRequest(http.MethodPost, "/ext", bytes.NewReader(body))
+		ctx.Request.RemoteAddr = "192.0.2.10:4444"
+		go func(g int) {
+			defer close(done[g])
+			defer func() {
+				if r := recover(); r != nil {
+					res[g].Panic = fmt.Sprintf("%v\n%s", r, debug.Stack())
+				}
+			}()
+			<-start
+			w.Ext.Request(ctx)
+			res[g].Status = rec.Code
+			res[g].Body, _ = io.ReadAll(rec.Body)
+		}(g)
+	}
+	close(start)
+	deadline := time.After(watchdog)
+	for g := 0; g < n; g++ {
+		select {
+		case <-done[g]:
+		case <-deadline:
+			res[g] = Result{Timeout: true}
+			deadline = time.After(time.Millisecond)
+		}
+	}
+	return res
 }
 
 // Register registers a Demon and records its keys.
